@@ -72,7 +72,7 @@ def make_value(ex: Executor, st: State, spec, name: str, register_input=True):
         f = ctx.uf(name, z3.IntSort(), rs)
         if n is None:
             n = z3.Int(name + ".len")
-            st.assume(n >= 0)
+            ctx.global_axioms.append(n >= 0)
         sq = Seq(spec.kw["seqkind"], n, fn=lambda j, f=f: f(to_int(j)), et=et) if not isinstance(n, int) else \
             Seq(spec.kw["seqkind"], n, items=[f(z3.IntVal(k)) for k in range(n)], et=et)
         if register_input:
@@ -118,8 +118,94 @@ class Contract:
         """heap locations the function may write, as list of (V(Ref), attr)"""
         return []
 
+    uninterpreted = {}      # repo function key -> (uf name, facts(args, result) -> list of z3 facts)  (A3)
+
+    def snapshot(self, cfg):
+        """root of the real object graph (a geophires_x Model) for heap-based contracts, else None"""
+        return None
+
+    def heap(self, cfg):
+        """dotted path (rooted at 'model') -> concrete value | TSpec : state of the snapshot at function entry"""
+        return {}
+
     def setup(self, ex, st, cfg):
-        """hook: concrete configuration of the snapshot / heap before execution"""
+        """configure the snapshot heap before execution"""
+        root = ex.ctx.snapshot_root
+        if root is None:
+            return
+        from .snapshot import get_path, name_paths
+        name_paths(ex.ctx, root)
+        for path, val in self.heap(cfg).items():
+            owner_path, _, attr = path.rpartition(".")
+            owner = get_path(root, owner_path)
+            ex.ctx.keepalive.append(owner)
+            ex.ctx.path_of.setdefault(id(owner), owner_path)
+            if isinstance(val, TSpec):
+                spec = val
+                ex.ctx.init_overrides[(id(owner), attr)] = (lambda ex_, path_, spec=spec: _unref_cell(
+                    ex_, make_value(ex_, _SCRATCH, spec, path_)))
+            else:
+                ex.ctx.init_overrides[(id(owner), attr)] = _ConstInit(val)
+
+    # ---- concrete replay on the real objects (heap-based contracts)
+    def replay_call(self, ex, st, cfg, inputs, out):
+        import copy
+        from .replay import materialise, _wrapenv, _wrapres, _b
+        from .snapshot import get_path, set_path
+        from .spec import NS, normalise_clauses, spec_context
+        root0 = self.snapshot(cfg)
+        if root0 is None:
+            raise ValueError("no snapshot")
+        root = copy.deepcopy(root0)
+        for path, val in self.heap(cfg).items():
+            if not isinstance(val, TSpec):
+                set_path(root, path, copy.deepcopy(val))
+        for name, val in inputs.items():
+            if name.startswith("model.") and not name.endswith(".len"):
+                set_path(root, name, materialise(val))
+
+        def build_args(r):
+            args = {}
+            for pname, spec in self.params.items():
+                if pname in cfg:
+                    args[pname] = cfg[pname]
+                elif not isinstance(spec, tuple) and spec.kind == "obj":
+                    args[pname] = get_path(r, spec.kw["path"])
+                else:
+                    args[pname] = materialise(inputs[pname])
+            return args
+        args = build_args(root)
+        old_root = copy.deepcopy(root)
+        old_args = build_args(old_root)
+        for k, v in args.items():
+            if k in old_args and not (not isinstance(self.params[k], tuple) and self.params[k].kind == "obj"):
+                old_args[k] = copy.deepcopy(v)
+        ex.ctx.concrete = True
+        with spec_context(ex, st):
+            req = normalise_clauses(ex, st, self.requires(NS(st, _wrapenv(ex, st, old_args))))
+        out.requires = {k: _b(v) for k, v in req.items()}
+        fnode, module = self.load(ex.ctx)
+        obj = module
+        for part in self.key.split("::")[1].split("."):
+            obj = getattr(obj, part)
+        import io
+        import contextlib
+        try:
+            with contextlib.redirect_stdout(io.StringIO()):
+                out.result = obj(**args)
+        except Exception as e:
+            import traceback
+            out.raised = f"{type(e).__name__}: {e}"
+            out.trace = traceback.format_exc(limit=3)
+            return out
+        try:
+            with spec_context(ex, st):
+                ns = NS(st, _wrapenv(ex, st, args), old=NS(st, _wrapenv(ex, st, old_args)))
+                ens = normalise_clauses(ex, st, self.ensures(ns, _wrapres(ex, st, out.result)))
+            out.clauses = {k: _b(v) for k, v in ens.items()}
+        except Exception as e:
+            out.error = f"{type(e).__name__}: {e}"
+        return out
 
     # ---- use at a call site (modular reasoning: the caller sees only this contract)
     def apply_at_call(self, ex: Executor, st: State, args, kwargs, node):
@@ -179,6 +265,30 @@ def _wrap_result(res, st):
     return V(res, st)
 
 
+class _ConstInit:
+    """marks a concrete initial heap value (so that callables/enums are not mistaken for initialisers)"""
+
+    def __init__(self, value):
+        self.value = value
+
+    def __call__(self, ex, path):
+        import numpy as np
+        v = self.value
+        if isinstance(v, (list, np.ndarray)):
+            return ex.seq_of(_SCRATCH, v)
+        return ex.wrap(v, path)
+
+
+_SCRATCH = State()
+
+
+def _unref_cell(ex, v):
+    """make_value stores sequences in a scratch cell; initial heap values are kept as Seq (celled lazily per state)"""
+    if isinstance(v, CellRef):
+        return _SCRATCH.cells[v.cid]
+    return v
+
+
 class Registry(dict):
     def add(self, contract_cls):
         c = contract_cls() if isinstance(contract_cls, type) else contract_cls
@@ -217,6 +327,7 @@ def verify_contract(c: Contract, cfg_label: str, cfg: dict, repo_src: str, regis
     ctx.current_contract = c
     ctx.snapshot_root = snapshot_root
     ctx.config = cfg
+    ctx.uninterpreted = dict(getattr(c, "uninterpreted", {}) or {})
     ex = Executor(ctx)
     st = State()
     rr = RunResult()
